@@ -27,6 +27,7 @@ main thread by `finish`, so that they overlap with the base parts of the check.
 import concurrent.futures
 import os
 import socket
+import sys
 import time
 
 import cfggen
@@ -60,10 +61,82 @@ def run_rules(sc, root, helper, n_postop, timeout):
     cert = {"name": "crt", "identifiers": flowgrid.IDENTS, "kp_reuse": bool(sc.get("kp_reuse")), "key_type": "ecdsa_p256"}
     obs = flow.run_scenario(d, [cert], ca_opts=dict(sc.get("ca_opts") or {}), rules=[dict(r, answer=dict(r["answer"])) for r in sc["rules"]],
                             n_postop=n_postop, timeout=timeout, helper=helper, hook_exits=sc.get("hook_exits"),
-                            hooks_edit=(lambda cfg, root: feed_hooks(cfg, root, sc["hook_io"])) if sc.get("hook_io") else None)
+                            hooks_edit=(lambda cfg, root: hooks_edit(cfg, root, sc)) if sc.get("hook_io") or sc.get("multi_hooks") else None)
     posts = [h for h in obs["hooks"] if h["name"] == "rec-post-operation"]
     obs.update({"sc": sc, "posts": posts, "crt_path": crt, "key_path": key})
     return obs
+
+
+def hooks_edit(cfg, root, sc):
+    if sc.get("multi_hooks"):
+        multi_hooks_edit(cfg, root, sc["multi_hooks"])
+    if sc.get("hook_io"):
+        feed_hooks(cfg, root, sc["hook_io"])
+
+
+# hooks whose `type` array names SEVERAL events, on both sides of the file-level / certificate-level divide (one audit or
+# notification hook "for everything"), next to the single-typed recorder hooks
+ALL_TYPES = list(flow.HOOK_TYPES)
+MULTI_HOOKS = [
+    [{"name": "recm-audit", "types": ["file-pre-create", "file-post-create", "file-pre-edit", "file-post-edit", "post-operation"], "first": True}],
+    [{"name": "recm-edit-report", "types": ["file-post-edit", "post-operation"], "first": False},
+     {"name": "recm-chall-file", "types": ["challenge-http-01", "file-pre-create"], "first": True}],
+    [{"name": "recm-everything", "types": ALL_TYPES, "first": False}],
+    [{"name": "recm-cert-level", "types": ["challenge-http-01-clean", "post-operation"], "first": True},
+     {"name": "recm-report-create", "types": ["post-operation", "file-post-create"], "first": False}],
+]
+MULTI_VARS = ["is_success", "status", "file_path", "challenge", "identifier", "is_clean_hook"]
+
+
+def multi_hooks_edit(cfg, root, multi):
+    """Adds recorder hooks with several types to the certificate's group: before all the single-typed ones ("first")
+    or after them.  Their records carry no "type=" argument (flow.post_ops counts the single-typed recorder only);
+    the event is told by which variables are set: `is_success` = run as a post-operation hook."""
+    log = os.path.join(root, "hooks.log")
+    for m in multi:
+        h = {"name": m["name"], "type": list(m["types"]), "cmd": sys.executable,
+             "args": [flow.HOOKREC, log, m["name"], "0", "--", "mtypes=" + ",".join(m["types"])] +
+                     ["%s={{ %s }}" % (v, v) for v in MULTI_VARS]}
+        cfg["hook"].append(h)
+        if m.get("first"):
+            cfg["group"][0]["hooks"].insert(0, m["name"])
+        else:
+            cfg["group"][0]["hooks"].append(m["name"])
+
+
+def judge_multi_hooks(ctx, obs, atts, v, robj):
+    """"… runs the post-operation hooks exactly once per attempt": EVERY hook whose type list contains post-operation, not
+    only the single-typed recorder.  The same judge, attempt by attempt, with the number of records of that hook (run as
+    a post-operation hook) in the place of the recorder's.  A hook that stands AFTER the recorder's in the group may not
+    have been reached yet when the run was stopped: the last attempt is then left out for it."""
+    sc = obs["sc"]
+    raw = flowgrid.attempts_of(obs)
+    for m in sc["multi_hooks"]:
+        recs = [h for h in obs["hooks"] if h.get("name") == m["name"]]
+        as_post = [h for h in recs if flow.hook_args(h).get("is_success")]
+        ctx.count("x:multi-typed:hooks")
+        ctx.count("x:multi-typed:%s:records-as-post-operation" % m["name"], len(as_post))
+        ctx.count("x:multi-typed:%s:records-for-file-events" % m["name"], sum(1 for h in recs if flow.hook_args(h).get("file_path")))
+        ctx.count("x:multi-typed:%s:records-for-challenges" % m["name"], sum(1 for h in recs if flow.hook_args(h).get("challenge")))
+        if "post-operation" not in m["types"]:
+            continue
+        mine = []
+        for a, w in zip(atts, raw):
+            if not (a["post_op_count"] > 0 or a["next_start_ms"] is not None):
+                continue
+            if not m.get("first") and a["next_start_ms"] is None:
+                continue
+            n = sum(1 for h in as_post if h["t"] >= w["start"] and (w["next_start"] is None or h["t"] < w["next_start"]))
+            mine.append(dict(a, post_op_count=n))
+        ctx.count("x:multi-typed:attempts-judged-per-hook", len(mine))
+        if not mine:
+            continue
+        vm = vlib.model([{"op": "c07_judge", "attempts": mine, "bound_ms": BOUND_MS}])[0]
+        bad = [i for i, ok in enumerate(vm["attempts_ok"]) if not ok and mine[i]["post_op_count"] != 1]
+        if bad:
+            ctx.violation("faults %s: hook %s (type %s) declares post-operation: %d record(s) of it as a post-operation hook in "
+                          "attempt %d (exactly one expected)" % (sc["fault"], m["name"], m["types"], mine[bad[0]]["post_op_count"], bad[0] + 1),
+                          dict(robj, multi_hook=m, attempts_for_that_hook=mine))
 
 
 def gen_scripts(rng, n):
@@ -93,6 +166,14 @@ def gen_scripts(rng, n):
             sc["hook_exits"] = {rng.choice(["post-operation", "challenge-http-01-clean", "file-post-create"]): rng.choice([1, -9])}
             sc["fault"] += "+hook:%s" % sc["hook_exits"]
         out.append(sc)
+    # every third script (of those whose recorder hooks all succeed: a failing hook ends the list of its event) with
+    # multi-typed hooks next to the single-typed ones (no draw: the scripts stay what they were)
+    k = 0
+    for sc in out:
+        if "hook_exits" not in sc and sc["idx"] % 3 == 1:
+            sc["multi_hooks"] = MULTI_HOOKS[k % len(MULTI_HOOKS)]
+            sc["fault"] += "+multi-typed-hooks:%s" % ",".join(m["name"] for m in sc["multi_hooks"])
+            k += 1
     return out
 
 
@@ -233,6 +314,8 @@ def judge_single(ctx, obs, helper):
         ctx.violation("faults %s: attempt %d: %s" % (sc["fault"], bad + 1, why), robj)
     elif not v["bounded"]:
         ctx.violation("faults %s: an attempt took more than %d ms" % (sc["fault"], BOUND_MS), robj)
+    if sc.get("multi_hooks"):
+        judge_multi_hooks(ctx, obs, atts, v, robj)
     if sc["class"] == "cut":
         # the attempt during which the answer was cut cannot have been reported as a success unless the
         # cut answer was not needed (a cut body of an ignored answer); counted, the judge above decides
